@@ -113,6 +113,8 @@ type recorder struct {
 	order []*nbio.Conn
 	bytes int64
 	calls int64
+	// callbacks with at least one byte (an empty UDP datagram may or may not be delivered)
+	nonEmpty int64
 }
 
 func (rec *recorder) get(c *nbio.Conn) *connLog {
@@ -132,6 +134,18 @@ func (rec *recorder) get(c *nbio.Conn) *connLog {
 
 var progress int64
 var udpListenFd int64 = -1
+var udpListenConn atomic.Value // *nbio.Conn: the engine's UDP listener of the running case
+
+// udpListenerClosed reports whether the engine has closed its UDP listener
+// although the case is still running (nobody asked for that).
+func udpListenerClosed() (bool, string) {
+	cn, _ := udpListenConn.Load().(*nbio.Conn)
+	if cn == nil {
+		return false, ""
+	}
+	cl, err := cn.IsClosed()
+	return cl, fmt.Sprint(err)
+}
 
 func runCase(r *h.Run, c caseT) {
 	r.Eval(1)
@@ -217,7 +231,10 @@ func runCase(r *h.Run, c caseT) {
 		closeErrs[cn] = err
 		closeMu.Unlock()
 	})
-	g.OnUDPListen(func(cn *nbio.Conn) { atomic.StoreInt64(&udpListenFd, int64(cn.Hash())) })
+	g.OnUDPListen(func(cn *nbio.Conn) {
+		atomic.StoreInt64(&udpListenFd, int64(cn.Hash()))
+		udpListenConn.Store(cn)
+	})
 	g.OnData(func(cn *nbio.Conn, b []byte) {
 		l := rec.get(cn)
 		if atomic.AddInt32(&l.inside, 1) > 1 {
@@ -235,6 +252,9 @@ func runCase(r *h.Run, c caseT) {
 		l.mu.Unlock()
 		atomic.AddInt64(&rec.bytes, int64(len(b)))
 		atomic.AddInt64(&rec.calls, 1)
+		if len(b) > 0 {
+			atomic.AddInt64(&rec.nonEmpty, 1)
+		}
 		atomic.AddInt64(&progress, int64(len(b))+1)
 		atomic.AddInt32(&l.inside, -1)
 	})
@@ -617,6 +637,7 @@ func runUDP(r *h.Run, c caseT, g *nbio.Engine, rec *recorder, addr string, rng *
 	sig := fmt.Sprintf("c02:udp:%s:%s:%s", c.Mode, map[bool]string{false: "sync", true: "async"}[c.Async], c.Exec)
 	perRemote := c.Total
 	sentTotal := int64(0)
+	emptySent, emptySeen := 0, 0
 	for sentN := 0; sentN < perRemote; {
 		k := 1 + rng.Intn(20)
 		if sentN+k > perRemote {
@@ -633,12 +654,23 @@ func runUDP(r *h.Run, c caseT, g *nbio.Engine, rec *recorder, addr string, rng *
 				binary.BigEndian.PutUint32(b[4:8], uint32(len(rm.sent)))
 				outb.Fill(b[8:], rm.id, int64(len(rm.sent))*1400)
 				if _, err := rm.conn.Write(b); err != nil {
+					if cl, why := udpListenerClosed(); cl {
+						r.Violate(sig+":udp-listener-closed", fmt.Sprintf("the engine closed its UDP listener (close error %s) although nobody closed it: a remote's write fails with %v after %d datagrams (%d of them empty); every session is gone with it\nconfig %s", why, err, sentTotal+int64(emptySent), emptySent, c.cell()), c)
+						return
+					}
 					r.Inconclusive("udp write: " + err.Error())
 					return
 				}
 				rm.sent = append(rm.sent, b)
 				sentTotal++
 				atomic.AddInt64(&progress, 1)
+				if rng.Intn(12) == 0 {
+					// an empty datagram is a legal datagram: whether it reaches the callback is not
+					// asserted, but it must not disturb the session or the datagrams around it
+					if _, err := rm.conn.Write([]byte{}); err == nil {
+						emptySent++
+					}
+				}
 			}
 		}
 		sentN += k
@@ -647,7 +679,7 @@ func runUDP(r *h.Run, c caseT, g *nbio.Engine, rec *recorder, addr string, rng *
 		var last int64 = -1
 		lastCPU := h.CPUTime()
 		for {
-			got := atomic.LoadInt64(&rec.calls)
+			got := atomic.LoadInt64(&rec.nonEmpty)
 			if got >= sentTotal {
 				break
 			}
@@ -659,6 +691,10 @@ func runUDP(r *h.Run, c caseT, g *nbio.Engine, rec *recorder, addr string, rng *
 			}
 			last, lastCPU = got, cpu
 			if stable >= 60 {
+				if cl, why := udpListenerClosed(); cl {
+					r.Violate(sig+":udp-listener-closed", fmt.Sprintf("the engine closed its UDP listener (close error %s) although nobody closed it: %d of %d datagrams delivered, %d empty datagrams sent\nconfig %s", why, got, sentTotal, emptySent, c.cell()), c)
+					return
+				}
 				if d, ok := udpDrops(ua.Port); !ok || d > 0 {
 					r.Inconclusive(fmt.Sprintf("case %d: kernel dropped datagrams (drops=%d): inconclusive", c.Index, d))
 					return
@@ -694,6 +730,10 @@ content:
 		l.mu.Unlock()
 		next := -1
 		for _, d := range dg {
+			if len(d) == 0 {
+				emptySeen++
+				continue
+			}
 			total++
 			if len(d) < 8 {
 				r.Violate(sig+":datagram-content", fmt.Sprintf("delivered datagram of %d bytes matches nothing sent\nconfig %s", len(d), c.cell()), c)
@@ -744,6 +784,12 @@ content:
 		}
 		inv[cn] = id
 	}
+	if emptySeen > emptySent {
+		r.Violate(sig+":datagram-content", fmt.Sprintf("%d empty datagrams delivered, %d sent\nconfig %s", emptySeen, emptySent, c.cell()), c)
+		return
+	}
+	r.Count("empty_datagrams_sent", int64(emptySent))
+	r.Count("empty_datagrams_delivered(not asserted)", int64(emptySeen))
 	if int64(total) != sentTotal {
 		r.Violate(sig+":datagram-count", fmt.Sprintf("%d datagrams delivered, %d sent\nconfig %s", total, sentTotal, c.cell()), c)
 		return
